@@ -16,7 +16,11 @@ import (
 // OBinding of the working clause, in the ORDER BY list, the working projection, the input graphs or the
 // GROUP BY list; an int64 literal becomes the limit; BEFORE <time> the upper global bound; a clause hook
 // either appends the working clause to the pattern (next), resets it (init), flushes the working
-// projection (flushVars), rewrites the ORDER BY list (orderCheck), or does none of these. Output: BW/Generated/HookFacts.lean.
+// projection (flushVars), rewrites the ORDER BY list (orderCheck), sets the statement's type (bindType),
+// resets / closes the working construct clause (cInit / cNext), closes the working predicate-object pair
+// (cPair), or does none of these. A node, a predicate and a node handed to the data accumulator make a
+// triple of the statement's data. Element hooks are recorded per alternative (START carries the data
+// accumulator on its INSERT and DELETE alternatives only). Output: BW/Generated/HookFacts.lean.
 
 func probeElement(h semantic.ElementHook) string {
 	if h == nil {
@@ -24,6 +28,8 @@ func probeElement(h semantic.ElementHook) string {
 	}
 	st := &semantic.Statement{}
 	st.ResetWorkingGraphClause()
+	st.ResetWorkingConstructClause()
+	st.WorkingConstructClause().ResetWorkingPredicateObjectPair()
 	func() {
 		defer func() { recover() }()
 		h(st, semantic.NewConsumedToken(&lexer.Token{Type: lexer.ItemBinding, Text: "?probe"}))
@@ -46,6 +52,32 @@ func probeElement(h semantic.ElementHook) string {
 		return "inGraphs"
 	case len(st.GroupBy()) == 1 && st.GroupBy()[0] == "?probe":
 		return "group"
+	case len(st.GraphNames()) == 1 && st.GraphNames()[0] == "?probe":
+		return "graphs"
+	case len(st.OutputGraphNames()) == 1 && st.OutputGraphNames()[0] == "?probe":
+		return "outGraphs"
+	case st.WorkingConstructClause() != nil && st.WorkingConstructClause().SBinding == "?probe":
+		return "cSubj"
+	case st.WorkingConstructClause() != nil && st.WorkingConstructClause().WorkingPredicateObjectPair() != nil &&
+		st.WorkingConstructClause().WorkingPredicateObjectPair().PBinding == "?probe":
+		return "cPred"
+	case st.WorkingConstructClause() != nil && st.WorkingConstructClause().WorkingPredicateObjectPair() != nil &&
+		st.WorkingConstructClause().WorkingPredicateObjectPair().OBinding == "?probe":
+		return "cObj"
+	}
+	// the data accumulator: node, predicate, node make one triple of the statement's data
+	st = &semantic.Statement{}
+	func() {
+		defer func() { recover() }()
+		for _, t := range []lexer.Token{{Type: lexer.ItemNode, Text: "/t<probe>"}, {Type: lexer.ItemPredicate, Text: `"p"@[]`}, {Type: lexer.ItemNode, Text: "/t<o>"}} {
+			t := t
+			if _, err := h(st, semantic.NewConsumedToken(&t)); err != nil {
+				return
+			}
+		}
+	}()
+	if len(st.Data()) == 1 {
+		return "data"
 	}
 	// LIMIT: an int64 literal becomes the limit
 	st = &semantic.Statement{}
@@ -98,6 +130,36 @@ func probeClause(h semantic.ClauseHook) string {
 	if len(st3.Projections()) == 1 {
 		return "flushVars"
 	}
+	// the statement's type
+	st4 := &semantic.Statement{}
+	func() {
+		defer func() { recover() }()
+		h(st4, semantic.Symbol("PROBE"))
+	}()
+	if k := int(st4.Type()); k != int(semantic.Query) {
+		names := []string{"query", "insert", "delete", "create", "drop", "construct", "deconstruct", "show"}
+		if k >= 0 && k < len(names) {
+			return "bindType ." + names[k]
+		}
+	}
+	// construct templates: close the working clause (cNext), reset it (cInit), close the working pair (cPair)
+	st5 := &semantic.Statement{}
+	st5.ResetWorkingConstructClause()
+	st5.WorkingConstructClause().SBinding = "?probe"
+	st5.WorkingConstructClause().ResetWorkingPredicateObjectPair()
+	st5.WorkingConstructClause().WorkingPredicateObjectPair().PBinding = "?probe"
+	func() {
+		defer func() { recover() }()
+		h(st5, semantic.Symbol("PROBE"))
+	}()
+	switch {
+	case len(st5.ConstructClauses()) == 1:
+		return "cNext"
+	case st5.WorkingConstructClause() != nil && st5.WorkingConstructClause().SBinding == "":
+		return "cInit"
+	case st5.WorkingConstructClause() != nil && len(st5.WorkingConstructClause().PredicateObjectPairs()) == 1:
+		return "cPair"
+	}
 	// the ORDER BY checker: a key listed twice (same direction) is rewritten to one key
 	st2 := &semantic.Statement{}
 	st2.ResetProjection()
@@ -135,20 +197,54 @@ func cmdHookfacts(args []string) error {
 	var b strings.Builder
 	b.WriteString("-- GENERATED by `bwh hookfacts`: the hooks grammar.SemanticBQL() attaches, identified by probing them. Do not edit.\n")
 	b.WriteString("import BW.Generated.Grammar\nimport BW.Model.Hooks\n\nnamespace BW.Generated\nopen BW.Model.Hooks\n\n")
-	part := map[string]string{}
+	part := map[string][]string{}
 	start := map[string]string{}
 	end := map[string]string{}
 	uniform := true
+	var split []string
 	for _, s := range syms {
+		same := true
 		for i, cls := range (*g)[semantic.Symbol(s)] {
 			p, st, en := probeElement(cls.ProcessedElement), probeClause(cls.ProcessStart), probeClause(cls.ProcessEnd)
-			if i > 0 && (part[s] != p || start[s] != st || end[s] != en) {
+			if i > 0 && (start[s] != st || end[s] != en) {
 				uniform = false
 			}
-			part[s], start[s], end[s] = p, st, en
+			if i > 0 && part[s][0] != p {
+				same = false
+			}
+			part[s] = append(part[s], p)
+			start[s], end[s] = st, en
+		}
+		if !same {
+			split = append(split, s)
 		}
 	}
-	fmt.Fprintf(&b, "/-- Every alternative of a symbol carries the same hooks. -/\ndef hooksUniform : Bool := %v\n\n", uniform)
+	fmt.Fprintf(&b, "/-- Every alternative of a symbol carries the same clause hooks. -/\ndef hooksUniform : Bool := %v\n\n", uniform)
+	b.WriteString("/-- The symbols whose alternatives do not all carry the same element hook. -/\ndef splitSyms : List Sym := [")
+	for i, s := range split {
+		if i > 0 {
+			b.WriteString(", ")
+		}
+		b.WriteString("." + leanIdent(s))
+	}
+	b.WriteString("]\n\n")
+	b.WriteString("/-- The element hook of alternative `i` of a symbol. -/\ndef partOf : Sym → Nat → Part\n")
+	for _, s := range syms {
+		isSplit := false
+		for _, x := range split {
+			isSplit = isSplit || x == s
+		}
+		if isSplit {
+			for i, p := range part[s] {
+				if p != "none" {
+					fmt.Fprintf(&b, "  | .%s, %d => .%s\n", leanIdent(s), i, p)
+				}
+			}
+		} else if len(part[s]) > 0 && part[s][0] != "none" {
+			fmt.Fprintf(&b, "  | .%s, _ => .%s\n", leanIdent(s), part[s][0])
+		}
+	}
+	b.WriteString("  | _, _ => .none\n\n")
 	w := func(name, ty string, m map[string]string, dflt string) {
 		fmt.Fprintf(&b, "def %s : Sym → %s\n", name, ty)
 		for _, s := range syms {
@@ -158,7 +254,6 @@ func cmdHookfacts(args []string) error {
 		}
 		fmt.Fprintf(&b, "  | _ => .%s\n\n", dflt)
 	}
-	w("partOf", "Part", part, "none")
 	w("startHook", "CHook", start, "none")
 	w("endHook", "CHook", end, "none")
 	b.WriteString("end BW.Generated\n")
